@@ -908,3 +908,25 @@ Theorem C07_other_models_takes_values :
         = Some (if AotTree.action_takes_values a then {| vmin := 1; vmax := 1 |} else {| vmin := 0; vmax := 0 |})).
 Proof. exact (conj TablesBuild.derive_takes_values_table TablesBuild.aot_takes_values_table). Qed.
 Print Assumptions C07_other_models_takes_values.
+
+(** [Command::_build_self]: the model composes its steps in the order the source runs them ([gen_build_self_steps] is the
+    order of the parts in the source text; [TablesBuild.step_named] maps a part to the model's function) *)
+Theorem C07_build_self_steps_table : forall c, TablesBuild.tbl_build_self c = Some (build_self c).
+Proof. exact TablesBuild.build_self_steps_table. Qed.
+Print Assumptions C07_build_self_steps_table.
+
+Theorem C07_args_loop_table :
+  BuildTables.gen_args_loop_steps = TablesBuild.model_args_loop_steps
+  /\ (forall c, c_args (bs_args c) = fst (build_args (c_args c) (c_groups c) BuildTables.gen_pos_counter_start)
+              /\ c_groups (bs_args c) = snd (build_args (c_args c) (c_groups c) BuildTables.gen_pos_counter_start)).
+Proof. exact TablesBuild.args_loop_table_proj. Qed.
+Print Assumptions C07_args_loop_table.
+
+(** the deprecated command-level allow_hyphen_values / allow_negative_numbers / trailing_var_arg, from the table's rules *)
+Theorem C07_deprecated_table :
+  (forall c highest a, TablesBuild.tbl_deprecated_arg c highest a = Some (bs_deprecated_arg c highest a))
+  /\ (forall c, c_args (bs_deprecated c) =
+        map (bs_deprecated_arg c (fold_left (fun m a => match a_index a with Some n => N.max m n | None => m end)
+                                            (c_args c) BuildTables.gen_highest_idx_default)) (c_args c)).
+Proof. exact (conj TablesBuild.deprecated_table TablesBuild.deprecated_highest_table_proj). Qed.
+Print Assumptions C07_deprecated_table.
